@@ -5,7 +5,9 @@ design level  : ErrPosMC.tla (window machine of non-seekable input + getContents
                 (ReportAt on run-length encoded texts = getLineByOffset on the expanded contents).
                 TLC is expected to find D9 / D13 as violations of the property on the code-level model
                 and to prove the property for the repaired model (FIXRA, FIXCR).
-model -> code : faults with an offending byte known by construction (every corruption position of
+model -> code : ErrPosGen.tla enumerates query texts (every sequence of <= 3 / 5 symbols of {a, e-acute, hiragana,
+                e+combining, LF, CR, CRLF}; every alignment of multi-byte runes with the two excerpt cuts);
+                faults with an offending byte known by construction (every corruption position of
                 multi-line documents / queries x sizes x preceding documents x transport x terminators
                 x ASCII / multi-byte / double-width neighbourhood x long lines) are run through the
                 REAL binary build/gojq (vh c17run: files, redirected stdin, pipes with a controlled
@@ -489,6 +491,27 @@ def query_cases(r, n, lib_only=False):
     return cases
 
 
+def tlc_generated_cases(rep, work, r, seed, quick):
+    """query texts enumerated by TLC (ErrPosGen.tla): exhaustive small line structures and cut alignments"""
+    out = work.path("gen.ndjson")
+    res = vc.tlc(work.dir, "ErrPosGen.tla", "ErrPosGen.cfg", env={"VERIF_OUT": out, "VERIF_MAXLEN": "3" if quick else "5", "VERIF_CUT": "1"},
+                 timeout=900, extra=["-seed", str(seed), "-noGenerateSpecTE"])
+    if not res.ok() or not os.path.exists(out):
+        raise vc.ToolError("generator ErrPosGen failed:\n" + vc.tlc_error_text(res))
+    rep.add_tlc(res)
+    gen = vc.read_ndjson(out)
+    lines = [g for g in gen if g["fam"] == "lines"]
+    cut = [g for g in gen if g["fam"] == "cut"]
+    rep.cov["tlc_enumerated_texts"] = {"lines": len(lines), "cut": len(cut)}
+    if quick:
+        cut = r.sample(cut, 500)
+    cases = []
+    for g in lines + cut:
+        cases.append({"kind": "query", "text": Text().add(bytes(g["b"])), "err": {"k": "syntax", "p": g["p"]}, "fault": "gen-" + g["fam"], "cls": "term",
+                      "cb": [], "term": "", "style": "tlc", "size": 0, "transport": "file", "tr": "whole", "name": "q.jq", "args": ["-n", "-f", "@FILE@"]})
+    return cases
+
+
 # ---------------------------------------------------------------------------
 # design-level model checking
 
@@ -650,7 +673,7 @@ def case_from_replay(d):
 KNOWN = {"known_d9": F_D9, "known_d13": F_D13, "known_tok": F_TOK, "known_yaml": F_YAML, "known_stream": F_STREAM}
 
 
-def check_cases(rep, work, vh, gojq, cases, tag="t"):
+def check_cases(rep, work, vh, gojq, cases, tag="t", timeout=900):
     for i, c in enumerate(cases):
         c["id"] = i
     recs = replay(work, vh, gojq, cases, tag)
@@ -670,7 +693,7 @@ def check_cases(rep, work, vh, gojq, cases, tag="t"):
             continue
         todo.append((c, rec))
         trs.append(trace_record(c, rec))
-    verdicts, stats = vc.validate_sharded(work, trs, "ErrPosTrace.tla", "ErrPosTrace.cfg", {}, tag=tag, timeout=900, per_shard_min=30)
+    verdicts, stats = vc.validate_sharded(work, trs, "ErrPosTrace.tla", "ErrPosTrace.cfg", {}, tag=tag, timeout=timeout, per_shard_min=30)
     rep.add_tlc(stats)
     open_ids = {k["id"] for k in rep.known}
     bad = []
@@ -741,6 +764,7 @@ def run(tier, seed, replay_path):
         with cf.ThreadPoolExecutor(max_workers=1) as ex:
             mcf = ex.submit(model_check, rep, work, quick, seed)
             cases = witness_cases()
+            cases += tlc_generated_cases(rep, work, r, seed, quick)
             cases += json_fault_cases(r, 6 if quick else 40, 260 if quick else 100000, big=not quick)
             cases += bigdoc_cases(r, 250 if quick else 4000)
             cases += other_json_routes(r, 120 if quick else 1500)
@@ -748,7 +772,12 @@ def run(tier, seed, replay_path):
             cases += yaml_cases(r, 200 if quick else 3000)
             cases += query_cases(r, 700 if quick else 8000)
             cases += query_cases(r, 1500 if quick else 30000, lib_only=True)
-            counters = check_cases(rep, work, vh, gojq, cases)
+            counters = {}
+            B = 12000
+            for bi in range(0, len(cases), B):
+                cb = check_cases(rep, work, vh, gojq, cases[bi:bi + B], tag="t%d" % (bi // B), timeout=900 if quick else 3000)
+                for k, v in cb.items():
+                    counters[k] = counters.get(k, 0) + v
             jobs = mcf.result()
         judge_mc(rep, jobs)
         # TLC's counterexample for the property on the code-level model, at the real constants
